@@ -24,22 +24,28 @@ from vf.common import Obs, sub_seed, WarnLog, HarnessBug
 
 LEVEL = "exploration"
 TECHNIQUE = ("runtime call-history spy on the right-hand side + lockstep reference model (literature Butcher tableaus, embedded error "
-             "estimate, landing on requested times), black-box tableau identification with scripted slopes and rooted-tree order "
-             "conditions, closed-form accuracy and metamorphic relations")
-LEVEL_TEXT = ("Held on every generated execution of the run: 5 methods x {scripted basis slopes, 8 closed-form ODE families incl. batched and "
-              "tuple states} x grids {uniform, ragged, with very short/long intervals, increasing, decreasing} x (atol, rtol) settings. "
-              "Every recorded right-hand-side call was replayed against the literature tableau (stage times, stage states, step result, "
-              "FSAL reuse, accepted steps below tolerance, landing on requested times); c, A, b, E were read off scripted executions and "
-              "satisfy all rooted-tree order conditions up to the declared order; global errors stay below a calibrated multiple of the "
-              "requested tolerance. Only the generated inputs are decided (state size <= 24, |t| <= 12, Lipschitz constant x span <= 4).")
+             "estimate, accept/reject classification, landing on requested times; also run on partial histories while the solver is "
+             "running), black-box tableau identification with scripted slopes inserted into the rooted-tree order conditions, "
+             "closed-form accuracy and bitwise metamorphic relations")
+LEVEL_TEXT = ("Held on every generated execution of the run: 5 methods (and the default) x {scripted basis slopes, 7 closed-form ODE families incl. "
+              "batched, matrix-shaped and tuple/list states} x grids {uniform, ragged, very short, short-then-long, one long interval, repeated "
+              "points, single point} x {increasing, decreasing} x 6 (atol, rtol) settings. Every recorded right-hand-side call was replayed "
+              "against the literature tableau (stage times, stage states, step result, FSAL reuse, one step per interval for the fixed-step "
+              "methods; for the pairs: every accepted step has its embedded estimate below atol+rtol*|y|, no step is rejected below it, steps "
+              "land on the requested times and the returned values are those of the landing steps); c, A, b were read off scripted "
+              "executions and E off the step-size response and the accept/reject threshold, agree with the literature and satisfy every "
+              "rooted-tree order condition up to the declared order (17 trees for order 5); global errors stay below a calibrated multiple of "
+              "the requested tolerance. Only the generated inputs are decided (state size <= 24, |t| <= 12, Lipschitz constant x span <= 4).")
 LEVEL_NOTE = ("Trusts the literature tableaus transcribed in the module (cross-checked against scipy.integrate._ivp.rk at run time), "
               "torch.linalg.matrix_exp / elementary functions for the closed forms, and the norm convention ||err||_2 <= atol + rtol*max(||y0||_2,||y1||_2) "
-              "for 'within the requested tolerances'. Accuracy bounds are calibrated (>= 100x the largest error seen), so a defect that changes "
-              "results by less than that is only caught by the exact monitors (lockstep replay, identification, bitwise metamorphic relations).")
+              "for 'within the requested tolerances'. Accuracy bounds and observed-order margins are calibrated (>= 100x the largest error seen / "
+              ">= 0.25 below the smallest order seen), so a defect that changes results by less than that is only caught by the exact monitors "
+              "(lockstep replay, identification, bitwise metamorphic relations).")
 RULE = ("cases drawn by seeded sampling over group {tableau, errw, order, accuracy, fixedacc, meta_prefix, meta_reflect, meta_roundtrip, meta_tuple, "
         "degenerate} x method {euler, rk4, rk38, rk23, rk45} x ODE family x grid kind x direction x tolerance setting x state layout; "
-        "non-trivial = the right-hand side was called at least (stages x intervals) times, the call history was replayed completely by the "
-        "lockstep model, and the deciding comparison of the group was evaluated on a non-constant solution")
+        "non-trivial = the deciding comparison of the group was reached (call history replayed to the end by the lockstep model / coefficients "
+        "read off / at least s of the s+1 error weights read / both runs of a metamorphic pair completed) on a solution that is not identically "
+        "zero, or the case ended in a violation")
 MIN_NONTRIVIAL = {"quick": 2000, "thorough": 15000}
 REQUIRED_COUNTERS = {
     "quick": {"tableaus_identified": 200, "error_weight_sets_identified": 80, "histories_replayed": 5000, "replayed_euler": 600,
@@ -56,16 +62,22 @@ REQUIRED_COUNTERS = {
                  "default_method_calls": 300},
 }
 ASSUMPTIONS = [
-    "ts strictly monotone, 2 <= nt <= 9 (plus the directed degenerate grids: one point, repeated points), |t| <= 12, total span <= 10",
-    "state size <= 24 (batched, matrix-shaped and tuple states), float64 (float32 only in the scripted tableau group)",
-    "families keep (Lipschitz constant) x (span) <= 4 and solutions O(1): linear systems with ||A||_2 <= 2, logistic, separable, Bernoulli y'=y^2 cos t, "
-    "harmonic and damped oscillators, coupled linear tuple states",
-    "adaptive tolerances: rk45 atol>=1e-12/rtol>=1e-10, rk23 atol>=1e-9/rtol>=1e-7 (attainable in float64 within the call budget)",
-    "lockstep comparisons use 1e3*eps relative to the magnitude of the terms of each stage formula (largest seen on the unchanged tree: <= 4 eps)",
-    "'error within the requested tolerances' per accepted step is judged with the 2-norm of the embedded estimate against atol + rtol*max(|y0|,|y1|), "
-    "global error against K*(atol+rtol*max|y|)*(1+L*T)*sqrt(#accepted steps) with K calibrated 100x above the largest ratio seen",
-    "error weights E are read through the documented controller response h_new = h*min(10, 0.9*err^(-1/(q+1))) and, independently of its "
-    "constants, through the accept/reject threshold err<1",
+    "ts strictly monotone with 2 <= nt <= 9, |t| <= 12, total span <= 10, shortest interval 1e-6 x span (plus the directed degenerate grids: "
+    "a single point; one repeated time first / inside / last)",
+    "state size <= 24 (batched, matrix-shaped, 0-dim and tuple/list states), float64 (float32 only in the scripted tableau group)",
+    "families keep (Lipschitz constant) x (span) <= 4 and solutions O(1): linear systems with ||A||_2 <= 2 (matrix exponential), logistic, separable "
+    "y'=-a(t+s)y, Bernoulli y'=q y^2 cos(w(t+s)) with w <= 2.5/span, harmonic and damped oscillators, coupled linear tuple states",
+    "adaptive tolerances (atol, rtol) in {defaults (1e-8,1e-5), (1e-6,1e-3), (1e-10,1e-8), (1e-12,1e-10), (1e-6,0), (0,1e-6)} and 100x tighter "
+    "re-runs; rk23 is not run below (1e-8,1e-5)",
+    "lockstep comparisons use 1e3*eps relative to the magnitude of the terms of each stage formula plus the rounding of the recorded step "
+    "size (largest deviation seen on the unchanged tree: 13 eps-units)",
+    "'error within the requested tolerances' per accepted step is judged with the 2-norm of the embedded estimate against atol + rtol*max(|y0|,|y1|) "
+    "(the convention of the code); the global error is judged against K*(atol+rtol*max|y|)*(1+L*T)*sqrt(#accepted steps), K = 120 (rk23) / 40 (rk45) "
+    "when every accepted step has h*L <= 0.5 and 1400 / 50 otherwise (the initial step guess is the whole first interval: on a coarse grid a step "
+    "with h*L > 1 can be accepted on an accidentally small estimate; seen: 14x the resolved-step bound)",
+    "error weights E are read through the controller response h_new = h*min(10, 0.9*err^(-1/(q+1))) of the code and, independently of those "
+    "constants, through the accept/reject threshold err < 1 (a rejection below the threshold is reported as 'not the declared pair's estimate')",
+    "a run is declared non-terminating after 8000 right-hand-side calls (largest seen: 823) or 300 consecutive calls at one time (largest seen: 13)",
 ]
 BUDGET = {"quick": {"worker_timeout": 600, "case_timeout": 60}, "thorough": {"worker_timeout": 3000, "case_timeout": 120}}
 
@@ -373,7 +385,7 @@ def replay_fixed(method, log, ts, ytf, obs, key, eps):
 
 
 class Attempt:
-    __slots__ = ("t0", "h", "y0", "K0", "Kmat", "ynew", "fnew", "err", "scale", "status", "tnew", "start", "finite")
+    __slots__ = ("t0", "h", "y0", "K0", "Kmat", "ynew", "fnew", "err", "scale", "status", "tnew", "start", "finite", "rnd")
 
 
 class _Collector:
@@ -465,9 +477,11 @@ def replay_adaptive(method, log, ts, y0f, ytf, atol, rtol, obs, key, eps, partia
         if finite:
             ev = torch.matmul(R["E_t"], Kmat.double())
             a.err = abs(h) * float(torch.linalg.vector_norm(ev))
+            # rounding bound of the estimate (sum_j E_j K_j cancels almost completely for a smooth right-hand side)
+            a.rnd = 16 * 2.3e-16 * abs(h) * math.sqrt(Kmat.shape[1]) * float(torch.matmul(R["E_t"].abs(), Kmat.double().abs().amax(dim=1)))
             a.scale = atol + rtol * max(float(torch.linalg.vector_norm(y0c)), float(torch.linalg.vector_norm(a.ynew)))
         else:
-            a.err, a.scale = float("nan"), float("nan")
+            a.err, a.scale, a.rnd = float("nan"), float("nan"), 0.0
         a.status = None
         if prev is not None:
             prev.status = "accepted" if name == "acc" else "rejected"
@@ -483,13 +497,16 @@ def replay_adaptive(method, log, ts, y0f, ytf, atol, rtol, obs, key, eps, partia
     for n, a in enumerate(rp.attempts):
         if a.status == "rejected":
             rp.rejected += 1
+            if a.finite and a.err + a.rnd < a.scale * (1 - 1e-6) and fail is None:
+                fail = ("reject_below_tol", "attempt %d (h=%.6g) was rejected although the embedded error estimate of the %s pair, %.6g, is below "
+                        "atol+rtol*|y| = %.6g: the step control does not use the declared pair's estimate" % (n, a.h, method, a.err, a.scale))
             continue
         if a.status == "pending":
             continue
         rp.accepted += 1
         if a.h == 0.0:
             rp.zero_steps += 1
-        within = a.err < a.scale * (1 + 1e-9) or (a.h == 0.0)
+        within = a.err - a.rnd < a.scale * (1 + 1e-9) or (a.h == 0.0)
         if a.scale > 0 and a.err == a.err:
             rp.max_err_ratio = max(rp.max_err_ratio, a.err / a.scale)
         if not within and fail is None:
